@@ -103,6 +103,11 @@ def pin_agree(n, thr, dsse_mix):
     return fn
 
 
+def pin_one_functionary(case):
+    from harness import c02
+    return c02.pin_counting(case)
+
+
 PINNED = (
     [("dissent:%s:%s:%s" % (kind, pos, how), pin_dissent(kind, pos, how, False, dsse=(pos == "middle")))
      for kind, how in (("mat", "nibble"), ("prod", "add")) for pos in ("first", "middle", "last")]
@@ -115,6 +120,10 @@ PINNED = (
        ("threshold_one:match:k0_first", pin_threshold_one("match", False)),
        ("threshold_one:match:k1_first", pin_threshold_one("match", True)),
        ("agree:n3:t3", pin_agree(3, 3, False)), ("agree:n4:t2:mixed_formats", pin_agree(4, 2, True))]
+    # distinct functionaries: agreeing links made with several (sub)keys of ONE gpg key are one attestation
+    + [("one_functionary:" + c, pin_one_functionary(c)) for c in
+       ("two_subkeys_authorised_alone", "master_and_subkey_authorised", "subkeys_count_once", "subkeys_count_once_enough",
+        "same_key_filed_twice")]
 )
 
 
@@ -134,6 +143,8 @@ def run(ctx):
     n = 2000 if ctx.thorough() else 300
     families = ("ed25519", "rsa", "ecdsa") if ctx.thorough() else ("ed25519",)
     core.check_props(ctx, PROPS)
+    from vlib import ties2
+    ties2.run_thresholds(ctx)
     # root layout in the traditional format: the model's JSON reader is quadratic in the length of one string and a
     # DSSE layout puts four layout-sized strings into the request (payload, decoded payload, loads table, PAE message)
     base = {"c05": True, "link_variants": ["honest"], "root_variant": "honest", "vary_keys": False, "p_sub": 0.06,
